@@ -110,7 +110,7 @@ def gen_base():
 # --------------------------------------------------------------------------- Coq
 
 FORBIDDEN = re.compile(
-    r"\b(Admitted|Axiom|Axioms|Parameter|Parameters|Conjecture|Conjectures)\b|\b(admit|give_up)\s*([.;|]|$)|Unset\s+Guard|bypass_check|"
+    r"\b(Admitted|admit|give_up|Axiom|Axioms|Parameter|Parameters|Conjecture|Conjectures)\b|Unset\s+Guard|bypass_check|"
     r"Admit\s+Obligations|type-in-type|impredicative-set|Unset\s+Universe\s+Checking|Unset\s+Positivity")
 
 
